@@ -12,3 +12,114 @@ def units(tier, seed):
         cfg = [("L", 3, 1), ("LTL", 3, 1), ("LSLEL", 3, 1), ("LCL", 3, 1), ("LTL", 2, 2), ("L", 2, 2)]
         t = 1500
     return pipeline_units("C11", cfg, t)
+
+
+# ---------------------------------------------------------------- encoding detection must be able to decode the WHOLE file
+
+def make_encoding():
+    import z3
+    from symlite.values import SymInt, fresh_int, lift
+    import sqlfluff.core.helpers.file as fmod
+
+    class ByteText:
+        """File content abstracted to: n bytes, all ASCII except (if p < n) a non-ASCII byte at offset p. No BOM."""
+
+        def __init__(self, n, p):
+            self.n, self.p = n, p
+
+        def startswith(self, prefixes):
+            return False
+
+        def __iter__(self):
+            # one representative per run is enough for per-byte predicates such as `char < 128`
+            if bool(self.p > 0) and bool(self.n > 0):
+                yield 65
+            if bool(self.p < self.n):
+                yield 233
+
+        def prefix(self, k):
+            m = SymInt(z3.If(lift(k) < lift(self.n), lift(k), lift(self.n)))
+            return ByteText(m, self.p)
+
+    def factory(excluded=frozenset()):
+        def harness(c):
+            n = fresh_int(c, "file_bytes", 0)
+            p = fresh_int(c, "first_non_ascii_offset", 0)
+            c.assume(p.e <= n.e)
+            whole = ByteText(n, p)
+
+            class F:
+                def __enter__(self):
+                    return self
+
+                def __exit__(self, *a):
+                    return False
+
+                def read(self, k=None):
+                    return whole if k is None or (isinstance(k, int) and k < 0) else whole.prefix(k)
+            seen = {}
+
+            def detect(data):
+                seen["data"] = data
+                return {"encoding": "utf-8"}
+            real_open = getattr(fmod, "open", None)
+            real_detect = fmod.chardet.detect
+            fmod.open = lambda fname, mode="r", *a, **k: F()
+            fmod.chardet = type("C", (), {"detect": staticmethod(detect)})
+            try:
+                enc = fmod.get_encoding("f.sql", "autodetect")  # REAL
+            finally:
+                import chardet as real_chardet
+                fmod.chardet = real_chardet
+                if real_open is None:
+                    del fmod.open
+            has_non_ascii = p.e < n.e
+            if enc == "ascii":
+                c.witness("ascii")
+                return z3.Not(has_non_ascii)          # 'ascii' only if EVERY byte of the file is ASCII
+            c.witness("detected")
+            # the detector must have been shown the non-ASCII byte (i.e. the whole file up to it)
+            d = seen.get("data")
+            return z3.BoolVal(d is not None) if d is None else z3.And(has_non_ascii, lift(d.n) > p.e)
+        return harness
+    return factory
+
+
+def replay_encoding(cex):
+    import os
+    import tempfile
+    from sqlfluff.core.helpers.file import get_encoding
+    n, p = min(int(cex.get("file_bytes", 0)), 300000), min(int(cex.get("first_non_ascii_offset", 0)), 300000)
+    body = b"-- " + b"x" * max(0, p - 3) if p >= 3 else b"x" * p
+    if p < n:
+        body += "é".encode("utf-8")
+        body += b"y" * max(0, n - len(body))
+    with tempfile.TemporaryDirectory() as d:
+        f = os.path.join(d, "f.sql")
+        open(f, "wb").write(body)
+        enc = get_encoding(f, "autodetect")
+        try:
+            txt = open(f, encoding=enc, errors="strict").read()
+            ok = txt.encode(enc) == body
+        except Exception:
+            ok = False
+        if not ok:
+            return (f"a {len(body)}-byte file whose first non-ASCII byte is at offset {p} is detected as {enc!r}; reading it with "
+                    f"errors='backslashreplace' and writing it back does not reproduce its bytes")
+    return None
+
+
+_orig_units_c11 = units
+
+
+def units(tier, seed):  # noqa: F811
+    from lib.runner import Unit
+    return _orig_units_c11(tier, seed) + [Unit(
+        name="c11.encoding_detection", functions=["sqlfluff.core.helpers.file.get_encoding"],
+        bounds={"file length": "unbounded", "offset of the first non-ASCII byte": "unbounded (or none)"},
+        make=make_encoding(), replay=replay_encoding,
+        stubs=["open(..., 'rb').read([k]) -> abstract byte text (length + offset of the first non-ASCII byte, no BOM)",
+               "chardet.detect -> 'utf-8', records what it was shown"],
+        assumptions=["no BOM", "chardet is right when it is shown the non-ASCII bytes"],
+        outside=["BOM handling, utf-16/32", "undecodable bytes (design finding F9: read with backslashreplace, written back as escape text)"],
+        witnesses_required=["ascii", "detected"], sharded=False, timeout_s=120)]
